@@ -480,6 +480,26 @@ def search(ctx):
                 ctx.hist("search", "sqrt.curve.p%%8=%d" % (m % 8))
                 if b:
                     viol(b)
+    # primes p = 1 (mod 8) whose LEAST quadratic non-residue is large: p = 1 + 8 * (product of the odd primes <= B) * t makes
+    # every prime <= B a residue (reciprocity), so the search for b with (b^2 - 4a | p) = -1 in the p = 1 (mod 8) branch runs
+    # long for the small squares a = 1, 4, 9 (b^2 - 4a factors over small primes) - any cap on that search (round-8 seed
+    # C15-mut62-1: 127 candidates) fails exactly here.  B = 131 and 251; also the non-residue side.
+    for B in (131, 251) if ctx.quick else (131, 251, 401):
+        P = 1
+        for q in small_primes(B + 1):
+            if q > 2:
+                P *= q
+        t = 1
+        while not _is_prime(1 + 8 * P * t):
+            t += 1
+        p = 1 + 8 * P * t
+        nr = next(b for b in range(2, 100000) if pow(b, (p - 1) // 2, p) == p - 1)
+        for a in (1, 4, 9, 25, 2, 3, B, (B - 2) ** 2, nr, 4 * nr, nr * nr % p, p - 1):
+            n_eval += 1
+            ctx.hist("search", "sqrt.large-least-nonresidue(%d)" % nr)
+            b = check_sqrt(nt, a % p, p, pow(a % p, (p - 1) // 2, p) == 1)
+            if b:
+                viol(b)
     ctx.hist("search", "sqrt", n_eval - k0)
     n_eval += search_round2(ctx, nt)
     ctx.cov["search_evaluations"] = n_eval
